@@ -1,5 +1,6 @@
 import PewDriver.Util
 import PewModel.Thermo
+import Std.Data.HashMap
 open Lean
 namespace PewDriver.C03
 open PewDriver Pew.Thermo
@@ -54,14 +55,15 @@ def handle (op : String) (req : Json) : R Json := do
     let value : Nat → Nat → Nat → Nat → String := fun i s e c =>
       ((((toks[i]?).bind (·[s]?)).bind (·[e]?)).bind (·[c]?)).getD ""
     let acq : Acq := { samples := samples, nscans := nscans, elements := elements, channels := channels, value := value }
+    let hm : Std.HashMap String V := Std.HashMap.ofList tbl
     -- every token the readers can meet must be in the table of float()
     for i in List.range samples.length do
       for s in List.range nscans do
         for e in List.range elements.length do
           for c in List.range channels.length do
             let t := value i s e c
-            if (tbl.lookup t).isNone || (tbl.lookup (fixDec true t)).isNone then throw s!"token {t} not in the parse table"
-    let x : Ext V := { parse := fun t => ((tbl.lookup t).getD none), readNat := fun t => t.toNat? }
+            if !(hm.contains t) || !(hm.contains (fixDec true t)) then throw s!"token {t} not in the parse table"
+    let x : Ext V := { parse := fun t => ((hm.get? t).getD none), readNat := fun t => t.toNat? }
     let tc := renderCols toString acq
     let tr := renderRows toString acq
     let chanRes := channels.zipIdx.map (fun (ch, ci) =>
